@@ -113,3 +113,50 @@ def outcome(line):
             if k in js:
                 return k, js[k]
     return 'other', js
+
+
+def norm(v):
+    """vocabulary normalisation applied to BOTH sides before derivation trees are compared (C03).  gosyn
+    encodes a few constructs differently by syntactic context; these are spellings of one structure, not
+    structure (each is listed in DESIGN.md §5 C03):
+      * `*T` is TypePointer in a type position, Operation{Star} where it was read as an expression
+        (type arguments, conversions), Star in some statement positions;
+      * the parentheses of the operand of unary `&` are dropped by the parser (parser.rs "unparen");
+      * `G[A, B]` is Index{index: List[…]} in a type position and IndexList in an expression."""
+    if isinstance(v, list):
+        return [norm(x) for x in v]
+    if not isinstance(v, dict):
+        return v
+    if len(v) == 1:
+        (k, x), = v.items()
+        if k == 'TypePointer' and isinstance(x, dict) and 'typ' in x: return {'Ptr': norm(x['typ'])}
+        if k == 'Star' and isinstance(x, dict) and 'right' in x: return {'Ptr': norm(x['right'])}
+        if k == 'Operation' and isinstance(x, dict) and x.get('y') is None and x.get('op') == 'Star': return {'Ptr': norm(x['x'])}
+        if k == 'Operation' and isinstance(x, dict) and x.get('y') is None and x.get('op') == 'And':
+            inner = x['x']
+            while isinstance(inner, dict) and list(inner.keys()) == ['Paren']:
+                inner = inner['Paren']['expr']
+            return {'Operation': {**{kk: norm(vv) for kk, vv in x.items() if kk != 'x'}, 'x': norm(inner)}}
+        if k == 'IndexList' and isinstance(x, dict) and 'indices' in x:
+            return {'Index': {**{kk: norm(vv) for kk, vv in x.items() if kk not in ('indices',)}, 'index': {'List': norm(x['indices'])}}}
+    return {k: norm(x) for k, x in v.items()}
+
+
+def first_diff(x, y, path=''):
+    """first differing path between two JSON values, or None"""
+    if type(x) != type(y): return path, x, y
+    if isinstance(x, dict):
+        for k in x:
+            if k not in y: return path + '/' + k, x[k], None
+            r = first_diff(x[k], y[k], path + '/' + k)
+            if r: return r
+        for k in y:
+            if k not in x: return path + '/' + k, None, y[k]
+        return None
+    if isinstance(x, list):
+        if len(x) != len(y): return path + '/#len', len(x), len(y)
+        for i, (p, q) in enumerate(zip(x, y)):
+            r = first_diff(p, q, path + '/%d' % i)
+            if r: return r
+        return None
+    return None if x == y else (path, x, y)
